@@ -82,6 +82,23 @@ theorem C07_run_redeclare (c : Cpu) (es1 es2 : List Event) (s e : UInt16)
   show Bus.inRom (Bus.setRomspace _ s e) x = true
   simp [Bus.inRom, Bus.setRomspace, hx.1, hx.2]
 
+/-- the shapes of a declaration: a one-byte range protects exactly that byte, and a range with start > end protects
+    nothing (it is the way to un-declare ROM) - in particular it does not wrap around the address space -/
+theorem C07_range_shapes (b : Bus) (a s e x : UInt16) :
+    ((b.setRomspace a a).inRom x = true ↔ x = a) ∧ (e < s → (b.setRomspace s e).inRom x = false) := by
+  constructor
+  · simp only [Bus.inRom, Bus.setRomspace, Bool.and_eq_true, decide_eq_true_eq]
+    constructor
+    · intro h; exact UInt16.le_antisymm h.2 h.1
+    · intro h; subst h; exact ⟨UInt16.le_refl _, UInt16.le_refl _⟩
+  · intro h
+    simp only [Bus.inRom, Bus.setRomspace, Bool.and_eq_false_iff, decide_eq_false_iff_not]
+    by_cases h1 : s ≤ x
+    · right
+      intro h2
+      exact absurd (UInt16.lt_of_lt_of_le h h1) (UInt16.not_lt.mpr h2)
+    · left; exact h1
+
 /-- non-vacuity: a word store straddling the start of a ROM window keeps the ROM byte and lands the RAM byte -/
 example : let b := (Bus.new 7).setRomspace 4 5
     b.inRom 4 = true ∧ (b.writeWord 3 0xBEEF).readByte 4 = 0 ∧ (b.writeWord 3 0xBEEF).readByte 3 = 0xEF ∧
